@@ -239,6 +239,10 @@ CORPUS = [
      "text": "shared importance entry\n46 54 -5.045 (57 -134 -37)\n127 54 -1.5676 134 : 162\n\n37 sph -50. +0.414 14. 50.0\n"
              "57 c/y -50.0 50 50.\n134 c/z -4.63 5.8702 17.\n162 sz -50.0 27\n\nm54 40090.80c 0.203 8016.80c 0.4 6000.80c 0.412\n"
              "mode n p\nimp:n,p 4 2.0\n\n"},
+    # a shared cell-block entry imp:n,p=0. set apart and back: an observation in between split it for good
+    {"name": "corpus-shared-entry-split", "limit": 128, "seed": 520685, "nedits": 2,
+     "script": [["importance", 0, "n", 1.23456789e-07], ["importance", 0, "n", 0.0]],
+     "text": "shared cell-block entry\n36 22 3.0 -21 : 67 imp:n,p=0.\n\n21 pz 50.\n67 so 5.055\n\nm22 6000.80c 0.337\nmode n p\nnps 1000\n\n"},
 ]
 
 
